@@ -569,3 +569,80 @@ Print Assumptions C14_init_order_ignores_spans.
 Print Assumptions C14_parens_same_lua.
 Print Assumptions C14_spans_same_lua.
 Print Assumptions C14_unreachable_line_matters.
+
+(* ---- parentheses together with the columns they shift (Resolve/SpanMapProofs.v, Resolve/PositionsLua.v) ----
+   C14_resolve_natural   name resolution is natural in line and column numbers: for a function phi on spans that keeps
+                      the file id of every span and is injective (the resolver reads the file id of a span and compares
+                      the spans of the namespace entries of two `use` statements; nothing else), resolving the AST with
+                      phi applied to every span gives the resolved program with phi applied to every span, or errors of
+                      the same kinds in the same order.
+   C14_parens_and_positions_resolve / C14_parens_and_positions_same_lua
+                      if a2 is a1 with redundant parentheses inserted -- as ASTs: strip_parens a2 = a1 with such a phi
+                      that also keeps the first line of every span -- both are accepted by name resolution with results
+                      equal modulo spans (or both rejected, same kinds), ordered alike, and emit the same text when the
+                      type checker accepts both.
+   Limit: a FUNCTION phi exists when no node outside the new parentheses has exactly the span of the expression
+   inside them (a parenthesised expression statement is the counter-example: statement and expression share a span
+   before, not after); the relational generalisation is not proved here.  The parser step text -> AST
+   (that inserting parentheses yields such an a2) and the type checker's indifference to spans stay outside. *)
+From Sylt Require Resolve.SpanMap Resolve.SpanMapProofs Resolve.PositionsLua.
+
+Theorem C14_resolve_natural : forall phi : Sylt.Syntax.Resolved.span -> Sylt.Syntax.Resolved.span,
+  (forall s, Sylt.Syntax.Resolved.sp_file (phi s) = Sylt.Syntax.Resolved.sp_file s) ->
+  (forall a b, phi a = phi b -> a = b) ->
+  forall fl fuel ast,
+  Sylt.Resolve.SpanMapProofs.res_nat phi (Sylt.Resolve.Resolver.resolve_fuel fl fuel ast)
+    (Sylt.Resolve.Resolver.resolve_fuel fl fuel (Sylt.Resolve.SpanMap.mp_ast phi ast)).
+Proof. exact Sylt.Resolve.SpanMapProofs.resolve_fuel_natural. Qed.
+
+Theorem C14_parens_and_positions_resolve : forall phi : Sylt.Syntax.Resolved.span -> Sylt.Syntax.Resolved.span,
+  (forall s, Sylt.Syntax.Resolved.sp_file (phi s) = Sylt.Syntax.Resolved.sp_file s) ->
+  (forall s, Sylt.Syntax.Resolved.sp_line0 (phi s) = Sylt.Syntax.Resolved.sp_line0 s) ->
+  (forall a b, phi a = phi b -> a = b) ->
+  forall fl a1 a2,
+  Sylt.Resolve.Parens.strip_parens a2 = Sylt.Resolve.SpanMap.mp_ast phi a1 ->
+  match Sylt.Resolve.Resolver.resolve fl a1, Sylt.Resolve.Resolver.resolve fl a2 with
+  | Sylt.Resolve.Resolver.Ok r1, Sylt.Resolve.Resolver.Ok r2 => Sylt.Back.SpanProofs.same_modulo_spans r1 r2
+  | Sylt.Resolve.Resolver.Err es1, Sylt.Resolve.Resolver.Err es2 =>
+      map Sylt.Resolve.Resolver.e_kind es2 = map Sylt.Resolve.Resolver.e_kind es1
+  | Sylt.Resolve.Resolver.Panic s1, Sylt.Resolve.Resolver.Panic s2 => s1 = s2
+  | Sylt.Resolve.Resolver.OutOfFuel, Sylt.Resolve.Resolver.OutOfFuel => True
+  | _, _ => False
+  end.
+Proof. exact Sylt.Resolve.PositionsLua.parens_and_positions_resolve. Qed.
+
+Theorem C14_parens_and_positions_same_lua : forall phi : Sylt.Syntax.Resolved.span -> Sylt.Syntax.Resolved.span,
+  (forall s, Sylt.Syntax.Resolved.sp_file (phi s) = Sylt.Syntax.Resolved.sp_file s) ->
+  (forall s, Sylt.Syntax.Resolved.sp_line0 (phi s) = Sylt.Syntax.Resolved.sp_line0 s) ->
+  (forall a b, phi a = phi b -> a = b) ->
+  forall fl tgt fuel_tc fuel req a1 a2 r1 l1,
+  Sylt.Resolve.Parens.strip_parens a2 = Sylt.Resolve.SpanMap.mp_ast phi a1 ->
+  Sylt.Resolve.Resolver.resolve fl a1 = Sylt.Resolve.Resolver.Ok r1 ->
+  Sylt.Dep.Topo.init_order tgt (Sylt.Syntax.Resolved.r_stmts r1) = Sylt.Dep.Topo.OOk l1 ->
+  exists r2 l2, Sylt.Resolve.Resolver.resolve fl a2 = Sylt.Resolve.Resolver.Ok r2
+    /\ Sylt.Dep.Topo.init_order tgt (Sylt.Syntax.Resolved.r_stmts r2) = Sylt.Dep.Topo.OOk l2
+    /\ forall out1 out2,
+         Sylt.Types.Tc.compile_after_order (Sylt.Back.Emit.backend fuel req) fuel_tc
+           (Sylt.Syntax.Resolved.mkResolved (Sylt.Syntax.Resolved.r_vars r1) l1) = Sylt.Types.Tc.COk out1 ->
+         Sylt.Types.Tc.compile_after_order (Sylt.Back.Emit.backend fuel req) fuel_tc
+           (Sylt.Syntax.Resolved.mkResolved (Sylt.Syntax.Resolved.r_vars r2) l2) = Sylt.Types.Tc.COk out2 ->
+         out1 = out2.
+Proof. exact Sylt.Resolve.PositionsLua.parens_and_positions_same_lua. Qed.
+
+(* non-vacuity: `x := 1 + 2` and `x := (1 + 2)`, with the columns the parentheses shift: the hypotheses hold, both are
+   accepted, the resolved programs differ (in spans) and are equal modulo spans *)
+Theorem C14_positions_example :
+  Sylt.Resolve.Parens.strip_parens Sylt.Resolve.PositionsLua.ex_a2
+  = Sylt.Resolve.SpanMap.mp_ast Sylt.Resolve.PositionsLua.ex_phi Sylt.Resolve.PositionsLua.ex_a1
+  /\ (exists r1 r2,
+        Sylt.Resolve.Resolver.resolve (Sylt.Resolve.Resolver.mkFlags true true true true false) Sylt.Resolve.PositionsLua.ex_a1
+        = Sylt.Resolve.Resolver.Ok r1
+        /\ Sylt.Resolve.Resolver.resolve (Sylt.Resolve.Resolver.mkFlags true true true true false) Sylt.Resolve.PositionsLua.ex_a2
+           = Sylt.Resolve.Resolver.Ok r2
+        /\ r1 <> r2 /\ Sylt.Back.SpanProofs.same_modulo_spans r1 r2).
+Proof. exact Sylt.Resolve.PositionsLua.positions_example. Qed.
+
+Print Assumptions C14_resolve_natural.
+Print Assumptions C14_parens_and_positions_resolve.
+Print Assumptions C14_parens_and_positions_same_lua.
+Print Assumptions C14_positions_example.
